@@ -12,6 +12,14 @@ package main
 //     (handles wrapped too); every call position of Reader/Writer/Read/Write/Close/MkdirAll/ReadDir
 //     is failed once; every run must return an error or leave a complete copy; no panic, no hang.
 //     Small cases are emitted for the fault-plan model of Model/Copy.v.
+// (d) after the coverage audit: every copy also runs on the filespaces as they are (real handles:
+//     io.Copy's ReaderFrom / WriterTo paths); one instance as source and destination; path ARGUMENTS
+//     of the Copier in several spellings, the roots included; odd entry names (look-alikes, dots,
+//     blanks, non-UTF-8, long) in trees and Writer paths; further Reader / Writer sessions on the
+//     same file (given up half way, past the end, ResetPointer, Writer over a Writer's file);
+//     failing Read / Write calls with a partial effect; hand-built cases (c04Fixed): a file of
+//     several io.Copy buffers with every fault position, all odd names, a directory wider than the
+//     walk's queues; the destination may hold nothing that is neither old nor in the source.
 
 import (
 	"encoding/json"
@@ -40,6 +48,10 @@ import (
 func init() { runners["C04"] = runC04 }
 
 const c04Watchdog = 20 * time.Second
+
+// every position of a fault kind is tried when the fault-free run made at most this many calls of
+// the kind (more: first two, middle, last two)
+const c04EnumAll = 9
 
 // hangs observed so far (a hang costs a watchdog period): after a few of them the fault
 // enumeration stops, the failures already recorded are the verdict
@@ -174,9 +186,20 @@ var c04Out *Out
 
 var c04Sizes = []int{0, 0, 1, 1, 15, 15, 15, 300}
 
+// names a careless normalisation / filter would fold onto another name, drop or refuse: look-alikes
+// of the plain pool (prefix, case, blank, trailing dot), dots in every position, shell-ish marks,
+// non-UTF-8 bytes, a long name. All are legal entry names in the four backends.
+var c04OddNames = []string{"ab", "a.b", "A", "a ", " a", "a.", "d.", "..a", "a..b", "...", "a~", "~", "#a", "-", "a%2Fb",
+	"a\\b", "a:b", "*", "\xff\xfe", "\xc3\xa9", strings.Repeat("n", 180), ".a.", "a.part", "a.tmp", "b.bak"}
+
 func c04GenTree(rng *RNG, maxNodes int, allowBig bool) []c04Node {
 	n := rng.Intn(maxNodes + 1)
 	names := []string{"a", "b", "c", "d", "e.txt", "f", "g.bin", ".a", ".d"}
+	if rng.Chance(45) { // this tree mixes the odd names in
+		for i := 0; i < 6; i++ {
+			names = append(names, c04OddNames[rng.Intn(len(c04OddNames))])
+		}
+	}
 	type dirEnt struct {
 		p     string
 		depth int
@@ -357,6 +380,10 @@ func (r *c04Reader) Read(p []byte) (int, error) {
 	if r.st.hit("read", "src", "") {
 		return 0, errC04Injected
 	}
+	if r.st.hit("readp", "src", "") { // a Read that fails after it delivered some bytes
+		n, _ := r.inner.Read(p[:(len(p)+1)/2])
+		return n, errC04Injected
+	}
 	return r.inner.Read(p)
 }
 func (r *c04Reader) Close() error {
@@ -376,6 +403,10 @@ func (w *c04Writer) Write(p []byte) (int, error) {
 	if w.st.hit("write", "dst", "") {
 		return 0, errC04Injected
 	}
+	if w.st.hit("writep", "dst", "") { // a Write that fails after it accepted the first half
+		n, _ := w.inner.Write(p[:len(p)/2])
+		return n, errC04Injected
+	}
 	return w.inner.Write(p)
 }
 
@@ -392,7 +423,8 @@ func (w *c04Writer) Close() error {
 	return w.inner.Close()
 }
 
-var c04FaultKinds = []string{"reader", "writer", "read", "write", "closew", "closer", "mkdir", "readdir"}
+// readp / writep: the failing call had a partial effect (not in the model's fault plans: L2 only)
+var c04FaultKinds = []string{"reader", "writer", "read", "write", "closew", "closer", "mkdir", "readdir", "readp", "writep"}
 
 func c04CoqFault(kind string, k int) string {
 	name := map[string]string{"reader": "FReader", "writer": "FWriter", "read": "FRead", "write": "FWrite",
@@ -493,6 +525,16 @@ func c04RunStream(o *Out, seed uint64, tier string, idx int) {
 	}
 	c.Pre = []string{"absent", "shorter", "longer", "equal", "isdir", "parentmissing", "absent", "longer"}[rng.Intn(8)]
 	c.Path = []string{"f.bin", "d/f.bin", "d/e/f.bin"}[rng.Intn(3)]
+	if rng.Chance(30) { // odd leaf / directory names (look-alikes of keep.txt / sib.txt included)
+		leaf := append([]string{"keep.txt.", "keep.tx", "sib.txt ", ".f.bin", "f.bin."}, c04OddNames...)
+		c.Path = path.Dir(c.Path) + "/" + leaf[rng.Intn(len(leaf))]
+		if strings.HasPrefix(c.Path, "./") {
+			c.Path = c.Path[2:]
+		}
+		if rng.Chance(40) && strings.HasPrefix(c.Path, "d/") {
+			c.Path = []string{".d", "d.", "d ", "..d", "D"}[rng.Intn(5)] + c.Path[1:]
+		}
+	}
 	in := c04New(c.Backend, idx)
 	defer in.cleanup()
 	viaRemote := rng.Bool()
@@ -681,6 +723,127 @@ func c04RunStream(o *Out, seed uint64, tier string, idx int) {
 	} else {
 		o.CountEval(keyR, true)
 	}
+	c04Sessions(o, rng, in, &c, cur.Data)
+}
+
+// further sessions on the SAME file of the SAME filespace instance: the stored bytes do not depend
+// on how many sessions there were before, on a session that was given up half way, or on whether the
+// previous content came from WriteFile or from a Writer session.
+func c04Sessions(o *Out, rng *RNG, in *c04Inst, c *c04Stream, data []byte) {
+	fail := func(oracle, what string) { o.Fail(oracle, what, "C04-"+oracle, *c) }
+	readAll := func(size, buf, extra int, reset bool) (got []byte, afterEOF int, again []byte, hasReset bool, err error) {
+		r, err := in.fs.Reader(c.Path)
+		if err != nil {
+			return nil, 0, nil, false, err
+		}
+		b := make([]byte, buf)
+		for i := 0; i < size/buf+3; i++ {
+			n, rerr := r.Read(b)
+			got = append(got, b[:n]...)
+			if rerr == io.EOF {
+				break
+			}
+			if rerr != nil {
+				r.Close()
+				return got, 0, nil, false, rerr
+			}
+		}
+		for i := 0; i < extra; i++ { // at the end: nothing more may be delivered
+			n, _ := r.Read(b)
+			afterEOF += n
+		}
+		if rp, ok := r.(interface{ ResetPointer() }); ok && reset {
+			hasReset = true
+			rp.ResetPointer()
+			again, _ = io.ReadAll(r)
+		}
+		return got, afterEOF, again, hasReset, r.Close()
+	}
+	// (1) a session given up after the first bytes
+	cl, msg := c04Watch(c04Watchdog, func() error {
+		r, err := in.fs.Reader(c.Path)
+		if err != nil {
+			return err
+		}
+		b := make([]byte, 1+rng.Intn(7))
+		n, _ := r.Read(b)
+		if !strings.HasPrefix(string(data), string(b[:n])) {
+			fail("reader_exact", "second Reader session: the first bytes are not a prefix of the stored content")
+		}
+		return r.Close()
+	})
+	if cl != "ok" {
+		fail("reader_ok", "Reader session given up after the first Read: "+cl+" "+msg)
+		return
+	}
+	// (2) a complete session after it, reads past the end, rewind
+	buf := []int{1, 3, 16, 1000, 40000}[rng.Intn(5)]
+	if len(data) > 5000 && buf < 16 {
+		buf = 4096
+	}
+	cl, msg = c04Watch(c04Watchdog, func() error {
+		got, after, again, hasReset, err := readAll(len(data), buf, 3, true)
+		if err != nil {
+			return err
+		}
+		if string(got) != string(data) {
+			fail("reader_again", fmt.Sprintf("a later Reader session (after a complete one and one given up after a few bytes) delivered %d bytes, the file holds %d bytes", len(got), len(data)))
+		}
+		if after != 0 {
+			fail("reader_past_end", fmt.Sprintf("%d more bytes delivered by Read calls after the end of the %d-byte file was signalled", after, len(data)))
+		}
+		if hasReset && string(again) != string(data) {
+			fail("reader_reset", fmt.Sprintf("after ResetPointer the handler delivered %d bytes, the file holds %d bytes", len(again), len(data)))
+		}
+		return nil
+	})
+	if cl != "ok" {
+		fail("reader_ok", "later Reader session: "+cl+" "+msg)
+		return
+	}
+	o.Stat("sessions_reader_again")
+	// (3) a second Writer session on the file the first one wrote
+	var next []byte
+	switch rng.Intn(3) {
+	case 0: // no Write call at all
+	case 1:
+		next = c04Content(len(data)/2, 91)
+	case 2:
+		next = c04Content(len(data)+9, 92)
+	}
+	var chunks [][]byte
+	if len(next) > 0 {
+		k := rng.Intn(len(next) + 1)
+		chunks = [][]byte{next[:k], next[k:]}
+	}
+	out := withTimeout(c04Watchdog, func() FsOut { return execOn(in.fs, FsOp{Kind: "Writer", P: c.Path, Chunks: chunks}) })
+	if out.Kind != "unit" {
+		fail("writer_ok", "second Writer session on the same file: "+out.Kind+" "+out.Msg)
+		return
+	}
+	cl, msg = c04Watch(c04Watchdog, func() error {
+		d, err := in.fs.ReadFile(c.Path)
+		if err != nil {
+			return err
+		}
+		if string(d) != string(next) {
+			fail("writer_again", fmt.Sprintf("after a second Writer session (%d bytes in %d chunks over the %d bytes of the first one) the file holds %d bytes", len(next), len(chunks), len(data), len(d)))
+		}
+		got, _, _, _, err := readAll(len(next), buf, 0, false)
+		if err != nil {
+			return err
+		}
+		if string(got) != string(next) {
+			fail("reader_again", fmt.Sprintf("Reader after the second Writer session delivered %d bytes, expected %d", len(got), len(next)))
+		}
+		return nil
+	})
+	if cl != "ok" {
+		fail("reader_ok", "reading back the second Writer session: "+cl+" "+msg)
+		return
+	}
+	o.Stat("sessions_writer_again")
+	o.CountEval(fmt.Sprintf("sessions/%s/%d/%d/%d", c.Backend, len(data), len(next), buf), true)
 }
 
 // ---------------------------------------------------------------- (b)+(c) copy cases
@@ -700,6 +863,10 @@ type c04Copy struct {
 	SrcRemote bool      `json:"src_via_remote"`
 	DstRemote bool      `json:"dst_via_remote"`
 	Variant   int       `json:"variant"`
+	Same      bool      `json:"same_instance,omitempty"` // source and destination are ONE filespace instance
+	Fixed     string    `json:"fixed,omitempty"`         // hand-built case (c04Fixed), not from the generator
+	NoFaults  bool      `json:"no_faults,omitempty"`
+	Handles   string    `json:"handles,omitempty"` // "real": the filespaces' own handles (no counting wrapper)
 	Fault     string    `json:"fault,omitempty"`
 	FaultK    int       `json:"fault_k,omitempty"`
 	Result    string    `json:"result,omitempty"`
@@ -721,6 +888,20 @@ type c04RunRes struct {
 	commit  string
 }
 
+// normalised (component) form of a path argument; "" is the root
+func c04Norm(p string) (string, bool) {
+	c, climbs := refNorm(p)
+	return key(c), climbs
+}
+
+// destination nodes before the copy (with one instance for both sides: the source nodes too)
+func (c *c04Copy) dstBefore() []c04Node {
+	if !c.Same {
+		return c.Dst
+	}
+	return append(append([]c04Node{}, c.Src...), c.Dst...)
+}
+
 // relative source entries (what must appear below D) and the expectation
 func (c *c04Copy) srcRel() map[string]c04Node {
 	m := map[string]c04Node{}
@@ -730,9 +911,12 @@ func (c *c04Copy) srcRel() map[string]c04Node {
 			m[n.Path] = n
 		}
 	case "copierdir":
+		sn, _ := c04Norm(c.S)
 		for _, n := range c.Src {
-			if strings.HasPrefix(n.Path, c.S+"/") {
-				m[n.Path[len(c.S)+1:]] = n
+			if sn == "" {
+				m[n.Path] = n
+			} else if strings.HasPrefix(n.Path, sn+"/") {
+				m[n.Path[len(sn)+1:]] = n
 			}
 		}
 	}
@@ -741,7 +925,9 @@ func (c *c04Copy) srcRel() map[string]c04Node {
 
 func (c *c04Copy) dstPath(rel string) string {
 	if c.Kind == "copierdir" {
-		return c.D + "/" + rel
+		if dn, _ := c04Norm(c.D); dn != "" {
+			return dn + "/" + rel
+		}
 	}
 	return rel
 }
@@ -750,7 +936,7 @@ func (c *c04Copy) dstPath(rel string) string {
 // source exists with the right kind, parents creatable / present).
 func (c *c04Copy) expectOK(dstMk bool) bool {
 	dst := map[string]c04Node{}
-	for _, n := range c.Dst {
+	for _, n := range c.dstBefore() {
 		dst[n.Path] = n
 	}
 	chainFree := func(p string, upto int) bool { // proper prefixes of p are absent or directories
@@ -772,10 +958,12 @@ func (c *c04Copy) expectOK(dstMk bool) bool {
 		if c.Kind == "copierfile" {
 			sp, dp = c.S, c.D
 		}
-		if e, ok := src[sp]; !ok || e.Dir {
+		sp, sclimbs := c04Norm(sp)
+		dp, dclimbs := c04Norm(dp)
+		if sclimbs || dclimbs || dp == "" {
 			return false
 		}
-		if comps, climbs := refNorm(dp); climbs || len(comps) == 0 {
+		if e, ok := src[sp]; !ok || e.Dir {
 			return false
 		}
 		if e, ok := dst[dp]; ok && e.Dir {
@@ -794,10 +982,18 @@ func (c *c04Copy) expectOK(dstMk bool) bool {
 		return true
 	}
 	if c.Kind == "copierdir" {
-		if e, ok := src[c.S]; !ok || !e.Dir {
+		sn, sclimbs := c04Norm(c.S)
+		dn, dclimbs := c04Norm(c.D)
+		if sclimbs || dclimbs {
 			return false
 		}
-		if !chainFree(c.D+"/x", 0) {
+		if e, ok := src[sn]; sn != "" && (!ok || !e.Dir) {
+			return false
+		}
+		if e, ok := dst[dn]; ok && !e.Dir {
+			return false
+		}
+		if dn != "" && !chainFree(dn+"/x", 0) {
 			return false
 		}
 	}
@@ -815,9 +1011,12 @@ func (c *c04Copy) expectOK(dstMk bool) bool {
 
 func (c *c04Copy) run(armKind string, armK int) (r c04RunRes) {
 	src := c04New(c.SrcBE, c.Variant)
-	dst := c04New(c.DstBE, c.Variant+1)
+	dst := src
+	if !c.Same {
+		dst = c04New(c.DstBE, c.Variant+1)
+		defer dst.cleanup()
+	}
 	defer src.cleanup()
-	defer dst.cleanup()
 	src.populate(c.Src, c.SrcRemote)
 	dst.populate(c.Dst, c.DstRemote)
 	r.srcLazy, r.dstMk = src.Lazy, dst.MkPar
@@ -831,8 +1030,10 @@ func (c *c04Copy) run(armKind string, armK int) (r c04RunRes) {
 		r.preWalk, _, _ = walkFs(dst.fs)
 	}
 	st := &c04FState{counts: map[string]int{}, armKind: armKind, armK: armK}
-	fsrc := c04FS{inner: src.fs, st: st, side: "src"}
-	fdst := c04FS{inner: dst.fs, st: st, side: "dst"}
+	var fsrc, fdst filesystem.Filespace = c04FS{inner: src.fs, st: st, side: "src"}, c04FS{inner: dst.fs, st: st, side: "dst"}
+	if c.Handles == "real" { // the filespaces as they are: io.Copy sees the real handle types (ReaderFrom / WriterTo)
+		fsrc, fdst = src.fs, dst.fs
+	}
 	r.class, r.msg = c04Watch(c04Watchdog, func() error {
 		switch c.Kind {
 		case "stream":
@@ -876,23 +1077,26 @@ func (c *c04Copy) complete(post []WalkEnt) string {
 	want := map[string]c04Node{}
 	switch c.Kind {
 	case "stream":
+		pn, _ := c04Norm(c.P)
 		for _, n := range c.Src {
-			if n.Path == c.P {
-				want[c.P] = n
+			if n.Path == pn && !n.Dir {
+				want[pn] = n
 			}
 		}
 	case "copierfile":
+		sn, _ := c04Norm(c.S)
+		dn, _ := c04Norm(c.D)
 		for _, n := range c.Src {
-			if n.Path == c.S {
-				want[c.D] = n
+			if n.Path == sn && !n.Dir {
+				want[dn] = n
 			}
 		}
 	default:
 		for rel, n := range c.srcRel() {
 			want[c.dstPath(rel)] = n
 		}
-		if c.Kind == "copierdir" {
-			want[c.D] = c04Node{Path: c.D, Dir: true}
+		if dn, _ := c04Norm(c.D); c.Kind == "copierdir" && dn != "" {
+			want[dn] = c04Node{Path: dn, Dir: true}
 		}
 	}
 	if len(want) == 0 && (c.Kind == "stream" || c.Kind == "copierfile") {
@@ -907,23 +1111,49 @@ func (c *c04Copy) complete(post []WalkEnt) string {
 		n := want[k]
 		e, ok := pm[k]
 		if !ok {
-			return "missing in the destination: " + k
+			return fmt.Sprintf("missing in the destination: %q", k)
 		}
 		if e.IsDir != n.Dir {
-			return "kind differs at " + k
+			return fmt.Sprintf("kind differs at %q", k)
 		}
 		if !n.Dir && string(e.Data) != string(n.Data) {
-			return fmt.Sprintf("content differs at %s: destination holds %d bytes, source %d bytes", k, len(e.Data), len(n.Data))
+			return fmt.Sprintf("content differs at %q: destination holds %d bytes, source %d bytes", k, len(e.Data), len(n.Data))
 		}
 	}
-	for _, n := range c.Dst {
+	before := map[string]bool{}
+	for _, n := range c.dstBefore() {
+		before[n.Path] = true
 		if _, over := want[n.Path]; over {
 			continue
 		}
 		e, ok := pm[n.Path]
 		if !ok || e.IsDir != n.Dir || (!n.Dir && string(e.Data) != string(n.Data)) {
-			return "a destination node that is not part of the copy changed: " + n.Path
+			return fmt.Sprintf("a destination node that is not part of the copy changed: %q", n.Path)
 		}
+	}
+	// nothing else appears: a reproduction of the source adds the source's entries (and the
+	// directories leading to them), not entries under other names
+	var extra []string
+	for k, e := range pm {
+		if _, w := want[k]; w || before[k] {
+			continue
+		}
+		lead := false
+		if e.IsDir {
+			for w := range want {
+				if strings.HasPrefix(w, k+"/") {
+					lead = true
+					break
+				}
+			}
+		}
+		if !lead {
+			extra = append(extra, k)
+		}
+	}
+	if len(extra) > 0 {
+		sort.Strings(extra)
+		return fmt.Sprintf("the destination has an entry that neither was there before nor is in the source: %q", extra[0])
 	}
 	return ""
 }
@@ -932,6 +1162,11 @@ func (c *c04Copy) complete(post []WalkEnt) string {
 func (c *c04Copy) cbs(log []c04Log) string {
 	var items []string
 	skipFirstMkdir := c.Kind == "copierdir"
+	// OnDir passes the walk's "./x" to MkdirAll; OnFile passes path.Dir(subPath), which is cleaned (never
+	// begins with "./"), and then opens the source. A file callback whose MkdirAll failed (a file in the
+	// way) never reaches the Reader call: it is handed to the model as a file callback in that
+	// directory (the model's MkdirAll fails likewise, whatever the file is called).
+	pending, havePending := "", false
 	for _, l := range log {
 		switch {
 		case l.Side == "dst" && l.Kind == "mkdir":
@@ -941,10 +1176,16 @@ func (c *c04Copy) cbs(log []c04Log) string {
 			}
 			if strings.HasPrefix(l.Path, "./") {
 				items = append(items, "CbDir "+c04CoqPath(l.Path))
+			} else {
+				pending, havePending = l.Path, true
 			}
 		case l.Side == "src" && l.Kind == "reader":
 			items = append(items, "CbFile "+c04CoqPath(l.Path))
+			havePending = false
 		}
+	}
+	if havePending {
+		items = append(items, "CbFile "+c04CoqPath(pending+"/file-whose-mkdirall-failed"))
 	}
 	return coqList(items)
 }
@@ -971,6 +1212,8 @@ func c04GenCopy(seed uint64, tier string, idx int) *c04Copy {
 	c.SrcRemote, c.DstRemote = rng.Bool(), rng.Bool()
 	tree := c04GenTree(rng, 15, true)
 	c.DstState = []string{"empty", "other", "overlap", "overlap", "other", "conflict", "empty"}[rng.Intn(7)]
+	// one instance as source AND destination (what fscache.Copy does with a Copier): the diagonal pairs
+	same := c.SrcBE == c.DstBE && (c.Kind == "copierdir" || c.Kind == "copierfile") && rng.Chance(60)
 	var files, dirs []c04Node
 	for _, n := range tree {
 		if n.Dir {
@@ -1046,7 +1289,14 @@ func c04GenCopy(seed uint64, tier string, idx int) *c04Copy {
 		c.Src, c.Dst = tree, rel
 	case "copierdir":
 		c.S = []string{"srcroot", "deep/srcroot"}[rng.Intn(2)]
-		c.D = []string{"out", "out/sub", "srcroot"}[rng.Intn(3)]
+		c.D = []string{"out", "out/sub", "srcroot", "out", ""}[rng.Intn(5)]
+		if same && (c.D == "srcroot" || c.D == "") {
+			c.D = "out"
+		}
+		c.Same = same
+		if same {
+			c.DstRemote = c.SrcRemote
+		}
 		c.Src = c04Prefix(c.S, tree)
 		if strings.Contains(c.S, "/") {
 			c.Src = append([]c04Node{{Path: "deep", Dir: true}}, c.Src...)
@@ -1060,10 +1310,15 @@ func c04GenCopy(seed uint64, tier string, idx int) *c04Copy {
 				c.Dst = append([]c04Node{{Path: "out", Dir: true}}, c.Dst...)
 			}
 		}
-		c.Dst = append(c.Dst, c04File("keep.txt", 6, 56)) // outside the destination root: must be kept
+		if c.D != "" {
+			c.Dst = append(c.Dst, c04File("keep.txt", 6, 56)) // outside the destination root: must be kept
+		}
 		if rng.Chance(4) {
 			c.S = "nosuchdir"
+		} else if !same && rng.Chance(6) {
+			c.S = "" // the whole source filespace (junk.txt included)
 		}
+		c.S, c.D = c04Spell(rng, c.S, true), c04Spell(rng, c.D, true)
 	case "stream", "copierfile":
 		if len(files) == 0 {
 			f := c04File("only.bin", c04Sizes[rng.Intn(len(c04Sizes))], 7)
@@ -1072,6 +1327,9 @@ func c04GenCopy(seed uint64, tier string, idx int) *c04Copy {
 		}
 		f := files[rng.Intn(len(files))]
 		c.Src = tree
+		if same {
+			c.Same, rel, c.DstRemote = true, nil, c.SrcRemote // the source tree is the destination's previous state
+		}
 		if c.Kind == "stream" {
 			c.P = f.Path
 			c.Dst = rel
@@ -1111,9 +1369,22 @@ func c04GenCopy(seed uint64, tier string, idx int) *c04Copy {
 				c.D = bad
 			}
 			o04Malformed++
+		} else if c.Kind == "copierfile" {
+			c.S, c.D = c04Spell(rng, c.S, false), c04Spell(rng, c.D, false)
 		}
 	}
 	return c
+}
+
+// c04Spell: another spelling of the same path (the helpers take path ARGUMENTS, not components)
+func c04Spell(rng *RNG, p string, dir bool) string {
+	if !rng.Chance(35) {
+		return p
+	}
+	if p == "" {
+		return []string{"", ".", "./", "/"}[rng.Intn(4)]
+	}
+	return []string{"./" + p, p + "/", "/" + p, "x/../" + p, strings.Replace(p, "/", "//", 1), p + "/.", "./" + p + "/"}[rng.Intn(7)]
 }
 
 func c04RunCopy(o *Out, c *c04Copy, tier string, budget *int) {
@@ -1148,9 +1419,40 @@ func c04RunCopy(o *Out, c *c04Copy, tier string, budget *int) {
 			fail("cache_commit_exact", "cache destination: "+base.commit, *c)
 		}
 	}
+	// the same copy on the filespaces as they are (no counting wrapper): io.Copy meets the real handle
+	// types and takes their ReaderFrom / WriterTo paths where they have them
+	{
+		rc := *c
+		rc.Handles = "real"
+		raw := rc.run("", 0)
+		*budget--
+		rc.Result = raw.class
+		o.Stat("copy_real_handles_" + raw.class)
+		switch raw.class {
+		case "panic", "hang":
+			fail("no-panic-no-hang", "copy helper on the plain filespaces "+raw.class+": "+raw.msg, rc)
+		case "err":
+			if expect {
+				fail("nofault_ok", "copy on the plain filespaces (no wrapper), no file/directory conflict, returned an error: "+raw.msg, rc)
+			}
+		case "ok":
+			if !raw.postOK {
+				fail("ok_implies_complete", "plain filespaces: helper returned nil but the destination cannot be read back: "+raw.postWhy, rc)
+			} else if d := rc.complete(raw.post); d != "" {
+				fail("ok_implies_complete", "plain filespaces (the handles' own io.Copy paths): helper returned nil but "+d, rc)
+			}
+			if raw.commit != "" && raw.commit != "ok" {
+				fail("cache_commit_exact", "plain filespaces, cache destination: "+raw.commit, rc)
+			}
+		}
+		o.CountEval(keyC+"/real", nontrivial)
+	}
+	if c.Same {
+		o.Stat("copy_same_instance")
+	}
 	small := c04TotalBytes(c.Src)+c04TotalBytes(c.Dst) <= 1500
 	emit := func(r c04RunRes, kind string, k int, cc c04Copy, keyx string) {
-		if !small || (r.class != "ok" && r.class != "err") {
+		if !small || (r.class != "ok" && r.class != "err") || kind == "readp" || kind == "writep" {
 			o.CountEval(keyx, nontrivial)
 			return
 		}
@@ -1166,19 +1468,22 @@ func c04RunCopy(o *Out, c *c04Copy, tier string, budget *int) {
 			coqBool(base.dstMk), coqWalk(base.srcWalk), coqWalk(base.preWalk), c.coqKind(base.log), flt, coqBool(r.class == "ok"), post), cc, keyx, nontrivial)
 	}
 	emit(base, "", 0, *c, keyC)
-	if base.class != "ok" {
+	if base.class != "ok" || c.NoFaults {
 		return
 	}
 	// (c) every fault position
 	for _, kind := range c04FaultKinds {
 		n := base.counts[kind]
 		var ks []int
-		if n <= 5 || tier == "thorough" && n <= 12 {
+		if n <= c04EnumAll || tier == "thorough" && n <= 16 {
 			for k := 0; k < n; k++ {
 				ks = append(ks, k)
 			}
 		} else {
 			ks = []int{0, 1, n / 2, n - 2, n - 1}
+		}
+		if (kind == "readp" || kind == "writep") && n > 3 {
+			ks = []int{0, n / 2, n - 1}
 		}
 		for _, k := range ks {
 			if *budget <= 0 {
@@ -1248,6 +1553,108 @@ func c04Forced(o *Out, reps int) {
 	}
 }
 
+// hand-built copy cases that the random generator reaches too rarely:
+//
+//	big-*   one file larger than io.Copy's buffer (2-4 Read/Write calls per file), over an older longer
+//	        file, every kind of helper, EVERY fault position: a failure in the middle of a stream;
+//	names-* every odd name once as a file and once as a directory, at the top level and below, next to
+//	        the plain names they look like;
+//	same-*  one instance as source and destination, every backend, Copier on a file and on a directory;
+//	wide    more entries in one directory than the walk's queues hold (fsloop.ChanSize = 1000).
+func c04Fixed(o *Out, seed uint64, tier string, budget *int) {
+	rot := int(seed % 16)
+	nb := len(c04CopyBackends)
+	pairOf := func(i int) (string, string) {
+		p := (rot + i*5) % (nb * nb)
+		return c04CopyBackends[p/nb], c04CopyBackends[p%nb]
+	}
+	sizes := []int{70000, 65536, 32769, 98304, 70000, 65537}
+	kinds := []string{"stream", "copierfile", "copy", "copierdir", "copy", "stream"}
+	for i := range sizes {
+		c := &c04Copy{Seed: seed, Section: "fixed", Fixed: fmt.Sprintf("big-%d", i), Variant: i, Kind: kinds[i], DstState: "overlap"}
+		c.SrcBE, c.DstBE = pairOf(i)
+		big := c04File("big.bin", sizes[i], byte(10+i))
+		c.Src = []c04Node{big, c04File("small.txt", 15, 3)}
+		old := c04File("big.bin", sizes[i]+11, byte(60+i))
+		switch c.Kind {
+		case "stream":
+			c.P = "big.bin"
+			c.Dst = []c04Node{c04File("other.txt", 5, 4)}
+			if i%2 == 1 {
+				c.Dst = append(c.Dst, old)
+			}
+		case "copierfile":
+			c.S, c.D = "big.bin", "t/copy.bin"
+			c.Dst = []c04Node{{Path: "t", Dir: true}, c04File("t/copy.bin", sizes[i]+11, 61)}
+		case "copierdir":
+			c.S, c.D = "srcroot", "out"
+			c.Src = append(c04Prefix("srcroot", c.Src), c04File("junk.txt", 9, 55))
+			c.Dst = append(c04Prefix("out", []c04Node{old}), c04File("keep.txt", 6, 56))
+		default:
+			c.Dst = []c04Node{c04File("other.txt", 5, 4)}
+			if i%2 == 0 {
+				c.Dst = append(c.Dst, old)
+			}
+		}
+		c04RunCopy(o, c, tier, budget)
+	}
+	plain := []string{"a", "b", "d", "keep.txt"}
+	for i := 0; i < nb; i++ {
+		c := &c04Copy{Seed: seed, Section: "fixed", Fixed: fmt.Sprintf("names-%d", i), Variant: 20 + i, DstState: "other", NoFaults: true}
+		c.DstBE, c.SrcBE = c04CopyBackends[i], c04CopyBackends[(i+rot)%nb]
+		var tree []c04Node
+		tree = append(tree, c04Node{Path: "sub", Dir: true})
+		for j, nm := range plain {
+			tree = append(tree, c04File(nm, 4+j, byte(120+j)), c04File("sub/"+nm, 2+j, byte(130+j)))
+		}
+		for j, nm := range c04OddNames {
+			tag := byte(140 + j)
+			if (j+i)%2 == 0 {
+				tree = append(tree, c04File(nm, 6+j%5, tag), c04Node{Path: "sub/" + nm, Dir: true}, c04File("sub/"+nm+"/"+nm, 3, tag+1))
+			} else {
+				tree = append(tree, c04Node{Path: nm, Dir: true}, c04File(nm+"/"+nm, 3, tag+1), c04File("sub/"+nm, 6+j%5, tag))
+			}
+		}
+		rel := []c04Node{c04File("b", 40, 7), c04File("zz.txt", 3, 8)} // an older, longer b; a bystander
+		if i%2 == 0 {
+			c.Kind, c.Src, c.Dst = "copy", tree, rel
+		} else {
+			c.Kind, c.S, c.D = "copierdir", "srcroot", "out"
+			c.Src = append(c04Prefix("srcroot", tree), c04File("junk.txt", 9, 55))
+			c.Dst = append(c04Prefix("out", rel), c04File("keep.txt", 6, 56))
+		}
+		c04RunCopy(o, c, tier, budget)
+	}
+	// one instance as source and destination, every backend, both Copier modes, the destination
+	// holding older (longer / shorter) content
+	for i := 0; i < 2*nb; i++ {
+		be := c04CopyBackends[i/2]
+		c := &c04Copy{Seed: seed, Section: "fixed", Fixed: fmt.Sprintf("same-%d", i), Variant: 40 + i, DstState: "overlap", NoFaults: true,
+			Same: true, SrcBE: be, DstBE: be, SrcRemote: (rot+i)%2 == 0}
+		c.DstRemote = c.SrcRemote
+		c.Src = append(c04Prefix("srcroot", []c04Node{c04File("a", 15, 21), {Path: "d", Dir: true}, c04File("d/b", 300, 22), {Path: "e", Dir: true}, c04File(".a", 1, 23)}), c04File("junk.txt", 9, 55))
+		c.Dst = append(c04Prefix("out", []c04Node{c04File("a", 40, 24), {Path: "d", Dir: true}, c04File("d/b", 7, 25), c04File("zz", 3, 26)}), c04File("keep.txt", 6, 56))
+		if i%2 == 0 {
+			c.Kind, c.S, c.D = "copierdir", "srcroot", "out"
+		} else {
+			c.Kind, c.S, c.D = "copierfile", "srcroot/d/b", []string{"out/a", "out/d/b", "out/new.bin"}[(rot+i/2)%3]
+		}
+		c04RunCopy(o, c, tier, budget)
+	}
+	{
+		c := &c04Copy{Seed: seed, Section: "fixed", Fixed: "wide", Variant: 30, Kind: "copy", DstState: "empty", NoFaults: true, SrcBE: "mem", DstBE: "mem"}
+		if rot%2 == 1 {
+			c.DstBE = "disk"
+		}
+		c.Src = []c04Node{{Path: "w", Dir: true}, {Path: "w2", Dir: true}}
+		for j := 0; j < 1100; j++ {
+			c.Src = append(c.Src, c04File(fmt.Sprintf("w/f%04d", j), 3, byte(j)), c04Node{Path: fmt.Sprintf("w2/d%04d", j), Dir: true})
+		}
+		c.Src = append(c.Src, c04File("w2/d0500/last.txt", 15, 1))
+		c04RunCopy(o, c, tier, budget)
+	}
+}
+
 func runC04(o *Out, rng *RNG, tier string, replay string) {
 	c04Out = o
 	o.Imports = "From GC Require Import Common.Base Model.Paths Model.Fs Model.Stream Model.Copy Corr.C04."
@@ -1264,11 +1671,12 @@ func runC04(o *Out, rng *RNG, tier string, replay string) {
 			return
 		}
 	}
-	nStream, nCopy, budget := 300, 100, 3600
+	nStream, nCopy, budget := 300, 100, 5000
 	if tier == "thorough" {
-		nStream, nCopy, budget = 4500, 1500, 60000
+		nStream, nCopy, budget = 4500, 1500, 90000
 	}
 	c04Forced(o, 3)
+	c04Fixed(o, rng.Next(), tier, &budget)
 	for i := 0; i < nStream; i++ {
 		c04RunStream(o, rng.Next(), tier, i)
 	}
@@ -1319,6 +1727,10 @@ func c04Replay(o *Out, file string, tier string) bool {
 	case "copy":
 		budget := 100000
 		c04RunCopy(o, c04GenCopy(raw.Case.Seed, tier, raw.Case.Variant), tier, &budget)
+		return true
+	case "fixed":
+		budget := 100000
+		c04Fixed(o, raw.Case.Seed, tier, &budget)
 		return true
 	}
 	return false
